@@ -970,6 +970,8 @@ class segment_if(x12_node):
             #self.logger.error(err_str)
             ref_des = '%02i' % (child_count + 1)
             err_value = seg_data.get_value(ref_des)
+            # report it at the first element the segment does not define
+            errh.add_ele(_undefined_element(self, child_count + 1))
             errh.ele_error('3', err_str, err_value, ref_des)
             valid = False
 
@@ -1068,6 +1070,18 @@ class segment_if(x12_node):
 
     def loop_segment_iterator(self):
         yield self
+
+
+class _undefined_element(object):
+    """
+    Stands in for a data element beyond the last one a segment defines,
+    so that an error can be reported at its position
+    """
+    def __init__(self, parent, seq):
+        self.parent = parent
+        self.seq = seq
+        self.data_ele = None
+        self.name = 'Undefined element'
 
 
 ############################################################
